@@ -84,11 +84,11 @@ M("C13", "uihb-pubkey-from-signer-path", "ledger/hsm2dongle_cmds/ui_heartbeat.py
 
 # ---- C05
 M("C05", "brothers-descending", "ledger/hsm2dongle.py",
-  "                                   key=lambda bh: bytes.fromhex(get_block_hash(bh))\n                                   ),",
-  "                                   key=lambda bh: bytes.fromhex(get_block_hash(bh)),\n                                   reverse=True),")
+  "                                       key=lambda bh: bytes.fromhex(get_block_hash(bh))\n                                       ),",
+  "                                       key=lambda bh: bytes.fromhex(get_block_hash(bh)),\n                                       reverse=True),")
 M("C05", "brothers-not-sorted", "ledger/hsm2dongle.py",
-  "        brothers = list(map(lambda brolist:\n                            sorted(brolist,",
-  "        brothers = list(map(lambda brolist:\n                            sorted(brolist[:1], key=lambda bh: b'') + sorted(brolist[1:],")
+  "            brothers = list(map(lambda brolist:\n                                sorted(brolist,",
+  "            brothers = list(map(lambda brolist:\n                                sorted(brolist[:1], key=lambda bh: b'') + sorted(brolist[1:],")
 M("C05", "mm-size-leaves-btcblock", "ledger/block_utils.py",
   "        remove_mm_fields_if_present(raw_block_hex, leave_btcblock=False, hex=False)",
   "        remove_mm_fields_if_present(raw_block_hex, leave_btcblock=True, hex=False)")
@@ -253,8 +253,8 @@ M("C02", "isinstance-int", "comm/utils.py",
   "    return name in mp and \\\n           type(mp[name]) == tp",
   "    return name in mp and \\\n           isinstance(mp[name], tp)")
 M("C02", "version-check-after-command", "comm/protocol.py",
-  '        if self.VERSION_KEY in request and request[self.VERSION_KEY] != self.VERSION:\n            return self._wrong_version()\n\n        command = request[self.COMMAND_KEY]\n        self.logger.debug("Cmd: %s", command)\n        if command not in self._known_commands:\n            return self._command_unknown()',
-  '        command = request[self.COMMAND_KEY]\n        self.logger.debug("Cmd: %s", command)\n        if command not in self._known_commands:\n            return self._command_unknown()\n\n        if self.VERSION_KEY in request and request[self.VERSION_KEY] != self.VERSION:\n            return self._invalid_request()')
+  '        if self.VERSION_KEY in request and request[self.VERSION_KEY] != self.VERSION:\n            return self._wrong_version()\n\n        command = request[self.COMMAND_KEY]\n        self.logger.debug("Cmd: %s", command)\n        if type(command) != str or command not in self._known_commands:\n            return self._command_unknown()',
+  '        command = request[self.COMMAND_KEY]\n        self.logger.debug("Cmd: %s", command)\n        if type(command) != str or command not in self._known_commands:\n            return self._command_unknown()\n\n        if self.VERSION_KEY in request and request[self.VERSION_KEY] != self.VERSION:\n            return self._invalid_request()')
 M("C02", "v1-wrong-version-code", "comm/protocol_v1.py",
   "    ERROR_CODE_WRONG_VERSION = -666", "    ERROR_CODE_WRONG_VERSION = -2")
 M("C02", "brothers-length-check-dropped", "comm/protocol.py",
@@ -607,3 +607,15 @@ M("C07", "frozen-now-at-import", "admin/certificate_v2.py",
   '''            now = datetime.now(UTC)''',
   '''            now = HSMCertificateV2ElementX509.__dict__.get("_T0") or datetime.now(UTC)
             HSMCertificateV2ElementX509._T0 = now''')
+M("C03", "revert-fix-recursion-while-handling", "comm/server.py",
+  '''            try:
+                response = self.protocol.handle_request(request)
+            except RecursionError as e:
+                # A document nested just under the parser's limit can still
+                # be too deep to be handled (e.g. logged). Same treatment.
+                raise json.decoder.JSONDecodeError(format(e), data, 0)
+''',
+  '''            response = self.protocol.handle_request(request)
+''')
+M("C17", "revert-fix-canonical-hash", "admin/signer_authorization.py",
+  "        self._hash = bytes.fromhex(hash).hex()\n", "        self._hash = hash.lower()\n")
